@@ -18,6 +18,18 @@ VIEW_FNS = (
 )
 
 
+def callers_of(facts, bid):
+    m = getattr(facts, "_callers", None)
+    if m is None:
+        m = {}
+        for b in facts.bodies:
+            for c in b.calls:
+                if c.resolved:
+                    m.setdefault(c.resolved, []).append((b, c))
+        facts._callers = m
+    return m.get(bid, [])
+
+
 def is_view(call):
     c = call.callee
     if not c:
@@ -329,9 +341,31 @@ class Flow:
                 out.add((l, suffix))
         return out
 
-    def field_of_ref(self, local):
-        """last field names this reference may designate: set of (adt, field)"""
-        return {p[1][-1] for p in self.ref_fields(local) if p[1]}
+    def field_of_ref(self, local, _seen=None):
+        """last field names this reference may designate: set of (adt, field).  A reference that is (a copy of) a parameter of a
+        crate-private function designates what its callers pass (`fn unlock_root(lock_state: &AtomicI64)` called as
+        `unlock_root(&self.lock_state)`)"""
+        out = {p[1][-1] for p in self.ref_fields(local) if p[1]}
+        if out:
+            return out
+        b = self.body
+        facts = getattr(b, "facts", None)
+        if facts is None or b.kind == "Closure" or b.exported:
+            return out
+        seen = _seen if _seen is not None else set()
+        roots, _ = self.roots(local)
+        for r in roots:
+            if r[0] != "arg" or (b.id, r[1]) in seen or len(seen) > 12:
+                continue
+            seen.add((b.id, r[1]))
+            if not b.ty(r[1]).get("s", "").startswith("&"):
+                continue
+            for cb, c in callers_of(facts, b.id):
+                if r[1] - 1 < len(c.args):
+                    al = op_root(c.args[r[1] - 1])
+                    if al is not None:
+                        out |= flow(cb).field_of_ref(al, seen)
+        return out
 
     # -- forward: where does a local flow ------------------------------------------------
     def _build_fwd(self):
